@@ -85,7 +85,8 @@ PROPS = {
         "gens": ["EnvLocks", "EnvFlow", "Inventory"],
         "lean": "Anko.Props.C13",
         "streams": [{"name": "envconc", "n_quick": 300, "n_thorough": 3000, "model": False, "race": True,
-                     "race_n_quick": 60, "race_n_thorough": 600}],
+                     "race_n_quick": 60, "race_n_thorough": 600},
+                    {"name": "envapi", "n_quick": 300, "n_thorough": 3000}],
         "trusted": ["sync.RWMutex implements the occupancy specification of lean/Anko/Model/Lts.lean (many readers or one writer)",
                     "the lock-region extractor tools/cmd/extract/envlocks.go (statement-order walk of env/*.go; unknown statement shapes are extraction errors)",
                     "Go race detector and scheduler for the stress part"],
